@@ -658,6 +658,39 @@ def unit_logsumexp(ctx):
                           found_input=not ok_def, unit=u.name, expected=ms, observed=got, broken="correspondence logsumexp / theorem C17_logsumexp_shift")
 
 
+def unit_ml_multiaxis(ctx):
+    """MaximumLikelihoodLoss on inputs with SEVERAL leading batch axes and conditions that broadcast against them (log_prob's documented
+    batching): the loss is minus the mean over ALL log-probabilities.  Oracle only.  (Seeded change C17e divided the sum by x.shape[0].)"""
+    import equinox as eqx
+    import jax.numpy as jnp
+    from flowjax.bijections import AdditiveCondition
+    from flowjax.distributions import Normal, Transformed
+    from flowjax.train.losses import MaximumLikelihoodLoss
+
+    u = ctx.unit("ml-loss-multiaxis", "MaximumLikelihoodLoss with x of shape (G, M, d) / (G, M, K, d) and conditions (G, 1, c) / (M, c) / (c,) / none vs "
+                                      "-mean(log_prob) over all elements (NumPy); non-trivial = more than one leading axis")
+    rng = ctx.rng
+    d, c = 2, 3
+    cond_dist = Transformed(Normal(jnp.zeros(d), jnp.asarray([0.7, 1.4])), AdditiveCondition(lambda cc: jnp.tanh(cc[:2]) + cc[2], (d,), (c,)))
+    unc_dist = Normal(jnp.asarray([0.3, -0.2]), jnp.asarray([0.8, 1.7]))
+    for rep in range(6 if ctx.quick else 40):
+        G, M, K = int(rng.integers(2, 5)), int(rng.integers(2, 6)), int(rng.integers(2, 4))
+        xb = [(G, M), (G, M, K), (M,)][rep % 3]
+        x = rng.normal(0, 1.5, xb + (d,))
+        for cshape in ([None, (G, 1, c), (M, c), (c,)] if len(xb) == 2 else [None, (c,), xb[-1:] + (c,)]):
+            dist = unc_dist if cshape is None else cond_dist
+            cond = None if cshape is None else rng.normal(0, 1, cshape)
+            params, static = eqx.partition(dist, eqx.is_inexact_array)
+            got = float(MaximumLikelihoodLoss()(params, static, jnp.asarray(x), None if cond is None else jnp.asarray(cond)))
+            lps = np.asarray(dist.log_prob(jnp.asarray(x)) if cond is None else dist.log_prob(jnp.asarray(x), jnp.asarray(cond)), dtype=float)
+            ref = float(-np.mean(lps))
+            u.count((rep, xb, cshape), nontrivial=len(xb) > 1, tag=f"x{xb}")
+            if not abs(got - ref) <= 1e-10 * max(1.0, abs(ref)):
+                ctx.violation(sig="ml-loss:multiaxis", what=f"MaximumLikelihoodLoss = {got!r} but -(mean of the {lps.size} log-probabilities) = {ref!r} for x of shape {xb + (d,)} "
+                              f"and condition of shape {cshape}", case=dict(unit="ml-loss-multiaxis", x=x.tolist(), condition=None if cond is None else cond.tolist()),
+                              found_input=True, unit=u.name, expected=ref, observed=got, broken="ml-loss-multiaxis / C17_ml_loss_spec")
+
+
 def unit_contrastive_bounded_support(ctx):
     """A conditional model whose SUPPORT depends on the condition (q(x|c) = c + Exponential): contrastive rows outside the support have
     logit -inf and contribute exp(-inf) = 0 to the softmax normaliser, so the defining cross-entropy is finite and >= 0.  Oracle
@@ -702,7 +735,7 @@ def run(ctx):
     import time
     _jx()
     only = os.environ.get("VERIF_C17_UNITS")   # development aid: run a subset of the units (default: all)
-    for f in (unit_logsumexp, unit_idxs, unit_ml, unit_contrastive, unit_contrastive_bounded_support, unit_elbo):
+    for f in (unit_logsumexp, unit_idxs, unit_ml, unit_contrastive, unit_contrastive_bounded_support, unit_ml_multiaxis, unit_elbo):
         if only and f.__name__[5:] not in only.split(","):
             continue
         t0 = time.time()
